@@ -11,7 +11,7 @@ use std::sync::Arc;
 
 pub const META_C06: PropMeta = PropMeta {
     level: "exploration",
-    rule: "inputs: files rendered by the reference encoder (4 hand-built 'kitchen sink' movies covering every box kind, 3 fragmented/segment variants, N seed-dependent generated movies) and 4 canned files; exhaustive single substitution of ~25 boundary values into every size/type/version/flags/count/length/offset/time field of the field map; aligned-word sweep over moov/moof of the canned files; pairwise substitution inside a box and with the parent's size field (strided in quick); box-tree surgery (delete/duplicate/truncate/zero/nest/swap, with and without ancestor size fix-up); every prefix of three files; cross-box field pairs; consistent inflation (a count raised together with the sizes of its box and of its k nearest ancestors, every k); chains of thousands of minimal containers; proptest havoc (1..6 byte/word/insert/delete/copy operations snapped to field starts); 'structures': valid generated movies with unusual legal content (handler names of any length/script incl. counted-string lookalikes, samples above 64 KiB, final mdat of size 0, 64-bit headers in udta); C06 also 'spec-boxes': the stand-alone box decoders on generated values of all 46 box kinds and byte-mutated versions. Each input goes through driver::exercise: read_header, read_fragment_header against two init segments, two media segments against the input, every accessor, sample_offset/read_sample for ids {0,1..min(count,64),count-1,count,count+1,2^31,u32::MAX} and a missing track, to_json/summary of every parsed box; every call under catch_unwind, in a wrapping and an overflow-checked build; process death is caught and re-confirmed by the supervisor. Non-trivial = the input differs from its base, the open call performed >= 4 stream operations, and (some open succeeded or it failed after >= 8 operations). Distinct = content hash.",
+    rule: "inputs: files rendered by the reference encoder (4 hand-built 'kitchen sink' movies covering every box kind, 3 fragmented/segment variants, N seed-dependent generated movies) and 4 canned files; exhaustive single substitution of ~25 boundary values into every size/type/version/flags/count/length/offset/time field of the field map; aligned-word sweep over moov/moof of the canned files; pairwise substitution inside a box and with the parent's size field (strided in quick); box-tree surgery (delete/duplicate/truncate/zero/nest/swap, with and without ancestor size fix-up); every prefix of three files; cross-box field pairs; consistent inflation (a count raised together with the sizes of its box and of its k nearest ancestors, every k); chains of thousands of minimal containers; 'amplify' (a trak/traf whose count or length field is maximal, repeated 200 (thorough 400) times in front of 512 KiB (1 MiB) of patterned padding: a decoder that follows the field beyond its box reads the padding once per copy); 'big-tables' (every sample-table box in turn with 100 000 entries in five orders); proptest havoc (1..6 byte/word/insert/delete/copy operations snapped to field starts); 'structures': valid generated movies with unusual legal content (handler names of any length/script incl. counted-string lookalikes, samples above 64 KiB, final mdat of size 0, 64-bit headers in udta); C06 also 'spec-boxes': the stand-alone box decoders on generated values of all 46 box kinds and byte-mutated versions. Each input goes through driver::exercise: read_header, read_fragment_header against two init segments, two media segments against the input, every accessor, sample_offset/read_sample for ids {0,1..min(count,64),count-1,count,count+1,2^31,u32::MAX} and a missing track, to_json/summary of every parsed box; every call under catch_unwind, in a wrapping and an overflow-checked build; process death is caught and re-confirmed by the supervisor. Non-trivial = the input differs from its base, the open call performed >= 4 stream operations, and (some open succeeded or it failed after >= 8 operations). Distinct = content hash.",
     assumptions: &["absence of panics is only shown for the explored inputs", "stack overflow would surface as SIGSEGV of a worker (observed, not generated on purpose)"],
 };
 
